@@ -80,7 +80,7 @@ WithPanics(o) == IF o.op \in {"extend", "collect", "display"} THEN {[o EXCEPT !.
 FailSets(s, o) ==
   IF FailMode = 0 THEN {{}}
   ELSE LET n0 == Do(s, o).res.nreq
-           one == {{k} : k \in 1..n0}
+           one == {{k} : k \in 1..(n0 + 1)}     \* n0 + 1: a request the design does not issue; should the code issue it, it fails
            two == IF FailMode = 2 THEN {{j, k} : j \in 1..n0, k \in 1..(n0 + 1)} ELSE {} IN
        {{}} \cup one \cup two
 WithFailures(s, o) ==
